@@ -416,7 +416,7 @@ InTry == {"loop", "submit", "wait_sample", "wait_consume", "wait_dead", "wait_dr
 Interrupt ==              \* KeyboardInterrupt delivered to the calling thread at this location
   /\ intCount < MaxInt
   /\ pc \in InTry \cup {"plan"}
-  \* C14 quantifies the second interrupt over resting points of the drain loop only (see DESIGN 7, C14)
+  \* C14 quantifies the second interrupt over resting points of the drain loop only (see DESIGN 6, C14 scope)
   /\ mode = "normal" \/ (mode = "drain" /\ pc \in {"wait_sample", "wait_consume"})
   /\ intCount' = intCount + 1
   /\ hist' = Rec(<<"int", pc>>)
